@@ -124,6 +124,8 @@ def b64_value():
 
 def hash_value(m, name):
     shape = m.hash_shapes.get(name)
+    if m.hash_gen_only.get(name) == "hex32":
+        return st.one_of(hex_str(32), hex_str(32).map(str.upper), hex_str(128))    # MD6: generated at two of the lengths everybody accepts
     if shape:
         n = int(re.search(r"\{(\d+)\}", shape).group(1))
         return st.one_of(hex_str(n), hex_str(n), hex_str(n).map(str.upper))
